@@ -40,6 +40,13 @@ type weights struct {
 	govPct     int // GOVEXEC per block
 	maxCheck   int // CHECK probes per block gap
 	longSteps  bool
+	quorum     bool // gov messages are enterprise parameter updates; decisions are mixed
+
+	// the three foci of PROTOCOL.md §7/§8; all zero for the older foci, whose output for a
+	// given seed must not change (no random draw is made for a feature that is off)
+	queries  bool // a burst of QUERY lines in every block gap
+	genesis  bool // 1–3 EXPORTIMPORT lines per script, DIGEST now and then
+	crashPct int  // CRASH lines: base probability (per cent) at every crash point
 }
 
 // txKinds are the kinds that can appear in transactions (parameter updates go through GOVEXEC).
@@ -59,6 +66,13 @@ var focusWeights = map[string]map[string]int{
 	"authz":  {"authz.grant": 10, "authz.revoke": 2, "authz.exec": 20},
 	"gov":    {},
 	"signer": {},
+	"query":  {},
+	"genesis": {"ent.wl": 3, "ent.raise": 7, "ent.decide": 7, "wrk.reg": 3, "wrk.rec": 10, "wrk.buy": 2, "bcn.reg": 3, "bcn.rec": 10, "bcn.buy": 2,
+		"str.create": 5, "str.claim": 2, "str.topup": 2, "str.rate": 1, "str.cancel": 1, "bank.send": 2, "authz.grant": 1, "feegrant.grant": 1},
+	"crash": {},
+	// many concurrent orders with mixed accept / reject decisions while governance keeps changing the
+	// signer set and the threshold (C03)
+	"quorum": {"ent.raise": 8, "ent.decide": 24, "ent.wl": 3, "bank.send": 1},
 }
 
 // Focuses lists the accepted -focus names.
@@ -97,6 +111,14 @@ func newWeights(focus string) (*weights, error) {
 		w.scramble = 60
 	case "stream":
 		w.longSteps = true
+	case "query":
+		w.queries = true
+	case "genesis":
+		w.genesis = true
+	case "crash":
+		w.crashPct = 5
+	case "quorum":
+		w.govPct, w.quorum = 55, true
 	}
 	return w, nil
 }
@@ -127,11 +149,25 @@ type Stats struct {
 	Kinds                                 map[string]*Counts
 	MsgsPerTx, StrLen                     map[string]int
 	WallSeconds                           float64
+
+	// PROTOCOL.md §7/§8. Queries: outcome per query kind (Ok / Err). ExportImport: Ok / Panic.
+	// Crashes: Ok = resumed at the committed height and hash, Err = "Z bad". CrashRedo: crashes
+	// after which the interrupted block was emitted again. WalksCapped: paging walks cut off
+	// because `next` never became "-" within the step limit (always 0 for a sound application).
+	Queries                         map[string]*Counts `json:",omitempty"`
+	QueryLines, Walks, WalksCapped  int
+	WalkSteps                       map[string]int `json:",omitempty"`
+	ExportImport, Crashes           Counts
+	ExportDiff, CrashRedo, Digests  int
+	PointMismatches, BrokenOnImport int
 }
 
 func newStats() *Stats {
-	return &Stats{Kinds: map[string]*Counts{}, MsgsPerTx: map[string]int{}, StrLen: map[string]int{}}
+	return &Stats{Kinds: map[string]*Counts{}, MsgsPerTx: map[string]int{}, StrLen: map[string]int{},
+		Queries: map[string]*Counts{}, WalkSteps: map[string]int{}}
 }
+
+func (c *Counts) merge(o Counts) { c.Ok, c.Err, c.Panic = c.Ok+o.Ok, c.Err+o.Err, c.Panic+o.Panic }
 
 func (s *Stats) count(key, class string) {
 	if s.Kinds[key] == nil {
@@ -169,6 +205,20 @@ func (s *Stats) merge(o *Stats) {
 		}
 		s.Kinds[k].Ok, s.Kinds[k].Err, s.Kinds[k].Panic = s.Kinds[k].Ok+c.Ok, s.Kinds[k].Err+c.Err, s.Kinds[k].Panic+c.Panic
 	}
+	for k, c := range o.Queries {
+		if s.Queries[k] == nil {
+			s.Queries[k] = &Counts{}
+		}
+		s.Queries[k].merge(*c)
+	}
+	for k, n := range o.WalkSteps {
+		s.WalkSteps[k] += n
+	}
+	s.QueryLines, s.Walks, s.WalksCapped = s.QueryLines+o.QueryLines, s.Walks+o.Walks, s.WalksCapped+o.WalksCapped
+	s.ExportImport.merge(o.ExportImport)
+	s.Crashes.merge(o.Crashes)
+	s.ExportDiff, s.CrashRedo, s.Digests = s.ExportDiff+o.ExportDiff, s.CrashRedo+o.CrashRedo, s.Digests+o.Digests
+	s.PointMismatches, s.BrokenOnImport = s.PointMismatches+o.PointMismatches, s.BrokenOnImport+o.BrokenOnImport
 	for k, n := range o.MsgsPerTx {
 		s.MsgsPerTx[k] += n
 	}
@@ -291,20 +341,89 @@ func one(o Options, w *weights, k int) (st *Stats, err error) {
 		}
 	}
 	now := time.Unix(gen.Time, 0).UTC()
+
+	// EXPORTIMPORT positions (genesis focus): 1–3 block gaps after the first few blocks; gap b is
+	// the one before block b, gap o.Blocks the one after the last block.
+	exportAt := map[int]bool{}
+	if w.genesis && o.Blocks > 0 {
+		lo := 3
+		if lo > o.Blocks {
+			lo = o.Blocks
+		}
+		for k := 1 + g.rng.Intn(3); k > 0; k-- {
+			exportAt[lo+g.rng.Intn(o.Blocks-lo+1)] = true
+		}
+	}
+	// gap emits what the new foci place between blocks, before any CHECK line of that gap.
+	gap := func(b int) error {
+		if w.queries {
+			if err := g.queryBurst(ip, emit); err != nil {
+				return err
+			}
+		}
+		if exportAt[b] {
+			out, err := emit("EXPORTIMPORT")
+			if err != nil {
+				return err
+			}
+			if ip.LastX == "ok" {
+				st.ExportImport.Ok++
+				if strings.HasPrefix(out[len(out)-1], "X2 diff") {
+					st.ExportDiff++
+				}
+				for _, l := range out {
+					if strings.HasPrefix(l, "x inv ") {
+						st.BrokenOnImport++
+					}
+				}
+			} else {
+				st.ExportImport.Panic++
+			}
+			if g.chance(40) {
+				if _, err := emit("DIGEST"); err != nil {
+					return err
+				}
+				st.Digests++
+			}
+		}
+		return nil
+	}
+	crash := func() error {
+		if _, err := emit("CRASH"); err != nil {
+			return err
+		}
+		st.Crashes.add(map[string]string{"ok": "ok", "bad": "err"}[ip.LastX])
+		return nil
+	}
+	noCheck := false // no CHECK between a CRASH and the next COMMIT (the restarted check state has an empty header)
+
+blocks:
 	for b := 0; b < o.Blocks; b++ {
-		for c := g.rng.Intn(w.maxCheck + 1); c > 0; c-- {
-			t := g.tx(newView(ip.R, ip.R.CheckCtx()), true)
-			if _, err := emit(t.Line("CHECK")); err != nil {
+		if err := gap(b); err != nil {
+			return st, err
+		}
+		if !noCheck {
+			for c := g.rng.Intn(w.maxCheck + 1); c > 0; c-- {
+				t := g.tx(newView(ip.R, ip.R.CheckCtx()), true)
+				if _, err := emit(t.Line("CHECK")); err != nil {
+					return st, err
+				}
+				st.Checks++
+				st.countTx("check:", t, ip.Last.Class)
+			}
+		}
+		if w.crashPct > 0 && g.chance(w.crashPct) { // between blocks
+			if err := crash(); err != nil {
 				return st, err
 			}
-			st.Checks++
-			st.countTx("check:", t, ip.Last.Class)
+			noCheck = true
 		}
 		now = now.Add(steps[g.rng.Intn(len(steps))])
 		if w.longSteps && g.chance(3) {
 			now = now.AddDate(300, 0, 0) // beyond the range of time.Duration and of UnixNano
 		}
-		if _, err := emit(fmt.Sprintf("BEGIN %d %d", now.Unix(), now.Nanosecond())); err != nil {
+		begin := fmt.Sprintf("BEGIN %d %d", now.Unix(), now.Nanosecond())
+		if _, err := emit(begin); err != nil {
 			return st, err
 		}
 		if ip.Stopped() {
@@ -319,38 +438,132 @@ func one(o Options, w *weights, k int) (st *Stats, err error) {
 			govAt = append(govAt, g.rng.Intn(ntx+1))
 		}
 		sort.Ints(govAt)
+
+		// body of the open block so far, kept so that a crash focus can emit the block again
+		type bodyLine struct {
+			tx  *script.Tx // TX line
+			gov script.Msg // GOVEXEC line (tx == nil)
+		}
+		var body []bodyLine
+		emitBody := func(l bodyLine) error {
+			if l.tx == nil {
+				if _, err := emit(fmt.Sprintf("GOVEXEC %d %s", g.next(), l.gov)); err != nil {
+					return err
+				}
+				govKinds = append(govKinds, l.gov.Kind)
+				return nil
+			}
+			if _, err := emit(l.tx.Line("TX")); err != nil {
+				return err
+			}
+			st.Txs++
+			st.countTx("", *l.tx, ip.Last.Class)
+			return nil
+		}
+		end := func() (stopped bool, err error) {
+			out, err := emit("END")
+			if err != nil {
+				return false, err
+			}
+			if ip.Stopped() {
+				st.EndPanics++
+				return true, nil
+			}
+			for i, l := range out[1:] { // RG n ok|err, in GOVEXEC order
+				st.GovExec++
+				st.count("gov:"+govKinds[i], l[strings.LastIndexByte(l, ' ')+1:])
+			}
+			return false, nil
+		}
+		// crashPoint: with probability pct emit CRASH (at most once per block); afterwards either
+		// the same block is emitted again (BEGIN at the same time, its lines with fresh running
+		// numbers, END if it had run) or the block is abandoned and a different one follows.
+		crashed := false
+		crashPoint := func(pct int, ended bool) (abandon, stopped bool, err error) {
+			if w.crashPct == 0 || crashed || !g.chance(pct) {
+				return false, false, nil
+			}
+			crashed, noCheck = true, true
+			if err := crash(); err != nil {
+				return false, false, err
+			}
+			if !g.chance(50) {
+				return true, false, nil
+			}
+			st.CrashRedo++
+			if _, err := emit(begin); err != nil {
+				return false, false, err
+			}
+			if ip.Stopped() {
+				st.BeginPanics++
+				return false, true, nil
+			}
+			govKinds = nil
+			for _, l := range body {
+				if l.tx != nil {
+					l.tx.N = g.next()
+				}
+				if err := emitBody(l); err != nil {
+					return false, false, err
+				}
+			}
+			if ended {
+				stopped, err = end()
+			}
+			return false, stopped, err
+		}
+		if abandon, stopped, err := crashPoint(w.crashPct, false); err != nil {
+			return st, err
+		} else if stopped {
+			break
+		} else if abandon {
+			continue
+		}
 		for i := 0; i <= ntx; i++ {
 			for len(govAt) > 0 && govAt[0] == i {
 				govAt = govAt[1:]
-				m := g.govMsg(newView(ip.R, ip.R.DeliverCtx()))
-				if _, err := emit(fmt.Sprintf("GOVEXEC %d %s", g.next(), m)); err != nil {
+				l := bodyLine{gov: g.govMsg(newView(ip.R, ip.R.DeliverCtx()))}
+				body = append(body, l)
+				if err := emitBody(l); err != nil {
 					return st, err
 				}
-				govKinds = append(govKinds, m.Kind)
 			}
 			if i == ntx {
 				break
 			}
 			t := g.tx(newView(ip.R, ip.R.DeliverCtx()), false)
-			if _, err := emit(t.Line("TX")); err != nil {
+			l := bodyLine{tx: &t}
+			body = append(body, l)
+			if err := emitBody(l); err != nil {
 				return st, err
 			}
-			st.Txs++
-			st.countTx("", t, ip.Last.Class)
+			if abandon, stopped, err := crashPoint(w.crashPct, false); err != nil {
+				return st, err
+			} else if stopped {
+				break blocks
+			} else if abandon {
+				continue blocks
+			}
 		}
-		out, err := emit("END")
-		if err != nil {
+		if stopped, err := end(); err != nil {
 			return st, err
-		}
-		if ip.Stopped() {
-			st.EndPanics++
+		} else if stopped {
 			break
 		}
-		for i, l := range out[1:] { // RG n ok|err, in GOVEXEC order
-			st.GovExec++
-			st.count("gov:"+govKinds[i], l[strings.LastIndexByte(l, ' ')+1:])
+		if abandon, stopped, err := crashPoint(w.crashPct, true); err != nil {
+			return st, err
+		} else if stopped {
+			break
+		} else if abandon {
+			continue
 		}
 		if _, err := emit("COMMIT"); err != nil {
+			return st, err
+		}
+		noCheck = false
+	}
+	if !ip.Stopped() && ip.Idle() {
+		if err := gap(o.Blocks); err != nil {
 			return st, err
 		}
 	}
@@ -382,6 +595,9 @@ func (g *G) genesis() *script.Genesis {
 		gs.Ent.Signers = append(gs.Ent.Signers, tok)
 	}
 	gs.Ent.Denom, gs.Ent.Min, gs.Ent.Limit = "nund", uint64(1+g.rng.Intn(ns)), 30
+	if g.w.quorum {
+		gs.Ent.Limit = 100000
+	}
 	for i := 0; i < g.n; i++ {
 		if g.chance(45) {
 			gs.Ent.WL = append(gs.Ent.WL, A(i))
@@ -399,5 +615,6 @@ func (g *G) genesis() *script.Genesis {
 	}
 	gs.Wrk, gs.Bcn = fees(), fees()
 	gs.StrFee = g.pick("0", "1", "10000000000000000", "500000000000000000", "1000000000000000000")
+	gs.Addrs = real.AddrTable(g.n)
 	return gs
 }
